@@ -66,7 +66,7 @@ func c03Rewrite(t *rapid.T, label, u string) string {
 		}
 		return u
 	}
-	switch rapid.IntRange(0, 36).Draw(t, label) {
+	switch rapid.IntRange(0, 38).Draw(t, label) {
 	case 0:
 		return rep("http://", "HTTP://")
 	case 1:
@@ -141,6 +141,10 @@ func c03Rewrite(t *rapid.T, label, u string) string {
 		return rep("\xef\xbf\xbd", "\xff\xfe")
 	case 36:
 		return rep("a.test", "caf\xe9.test")
+	case 37:
+		return rep("%25eth0", "%25eth1")
+	case 38:
+		return rep("[fe80::1%25eth0]", "[fe80::2%25eth0]")
 	}
 	return u
 }
@@ -163,8 +167,57 @@ func C03(t *rapid.T) *world.Scenario {
 		if swr {
 			rq.ReuseReq = true
 		}
-		MaybeOddForm(t, "odd"+itoa(int64(len(sc.Steps))), rq, 5)
+		odd := 5
+		if strings.Contains(u, "%25eth") {
+			// hosts whose text does not survive being re-parsed: the odd forms matter most here
+			odd = 35
+		}
+		MaybeOddForm(t, "odd"+itoa(int64(len(sc.Steps))), rq, odd)
+		if rq.OpaqueForm == 0 && Pct(t, "rootless"+itoa(int64(len(sc.Steps))), 4) {
+			rq.Rootless = true
+		}
 		return ReqStep(rq)
+	}
+	if Pct(t, "glue", 6) {
+		// A URL built with URL.JoinPath on a base without a path has a Path without the leading
+		// slash. Its first segment must not be read as the tail of the host (or of the port).
+		host := Pick(t, "glue-host", "a.test", "b.test", "127.0.0.1", "a.test:80", "a.test:8")
+		seg := Pick(t, "glue-seg", "a", "b", "1", "0", "80", "A")
+		rest := Pick(t, "glue-rest", "", "/x", "/a/b")
+		scheme := Pick(t, "glue-scheme", "http", "https")
+		plain := scheme + "://" + host + "/" + seg + rest
+		glued := scheme + "://" + host + seg + rest
+		first, second := mk("GET", plain, nil), mk("GET", glued, nil)
+		first.Req.Rootless, first.Req.OpaqueForm, first.Req.DialVia = true, 0, ""
+		second.Req.Rootless, second.Req.OpaqueForm, second.Req.DialVia = false, 0, ""
+		if Pct(t, "glue-order", 50) {
+			first, second = second, first
+		}
+		sc.Steps = append(sc.Steps, first, second)
+		if Pct(t, "glue-again", 50) {
+			sc.Steps = append(sc.Steps, mk("GET", plain, nil), mk("GET", glued, nil))
+		}
+		sc.Note = "glue"
+		return sc
+	}
+	if Pct(t, "zoned", 5) {
+		// link-local literals with a zone: the text of such a host does not parse again, so a
+		// request target spelled in URL.Opaque has to be keyed from the URL's own parts
+		path := "/" + Pick(t, "zoned-seg", "a", "b", "%2F")
+		if Pct(t, "zoned-q", 40) {
+			path += "?" + Pick(t, "zoned-qa", "q=1", "q=2")
+		}
+		k := rapid.IntRange(2, 4).Draw(t, "zoned-n")
+		for i := 0; i < k; i++ {
+			lbl := "zoned" + itoa(int64(i))
+			u := Pick(t, lbl+"-scheme", "http", "https") + "://" + Pick(t, lbl+"-host", "[fe80::1%25eth0]", "[fe80::1%25eth1]", "[fe80::2%25eth0]", "[fe80::1]") + Pick(t, lbl+"-port", "", "", ":8080") + path
+			st := mk("GET", u, nil)
+			st.Req.DialVia, st.Req.Rootless = "", false
+			st.Req.OpaqueForm = Pick(t, lbl+"-form", 1, 1, 1, 2, 0)
+			sc.Steps = append(sc.Steps, st)
+		}
+		sc.Note = "zoned"
+		return sc
 	}
 	sc.Steps = append(sc.Steps, mk("GET", a, nil))
 	if swr {
